@@ -500,12 +500,14 @@ def run_case(case):
     bufs = {}
 
     def tape_obj(i):
-        if sweep:
+        if sweep and not case["pool"][i].get("derive"):
             # parameter sweep: every circuit is built anew from arrays that live in one reused buffer per
-            # operator (refilled in place); circuits built earlier are not used again
+            # operator (refilled in place); circuits built earlier are not used again.  Tapes derived from
+            # persistent tape objects keep arrays of their own (a persistent tape whose array is refilled under
+            # it would be the harness breaking the circuit, not the cache)
             qgen.ARRAY_BUFFERS = bufs
             try:
-                return build_tape(case["pool"][i]) if not case["pool"][i].get("derive") else _tape_obj(i)
+                return build_tape(case["pool"][i])
             finally:
                 qgen.ARRAY_BUFFERS = None
         return _tape_obj(i)
